@@ -6,5 +6,7 @@ import Ufw.Tie.RegTable
 #print axioms Ufw.Props.C02.writeable_ok
 #print axioms Ufw.Props.C02.taint_spec
 #print axioms Ufw.Props.C02.malformed_ok
+#print axioms Ufw.Props.C02.block_write_success_inv
+#print axioms Ufw.Props.C02.block_write_frame
 #print axioms Ufw.Tie.RegTable.const_rds_size
 #print axioms Ufw.Tie.RegTable.const_enums
